@@ -36,7 +36,24 @@ const (
 	nOps
 )
 
-func apply(op int, x, y IR) (IR, bool) {
+// theRun is set by main; apply reports a panic of the code under test as a violation
+// (a panic must not take the whole check down: it IS the finding).
+var theRun *ev.Run
+
+func apply(op int, x, y IR) (z IR, ok bool) {
+	defer func() {
+		if e := recover(); e != nil {
+			if theRun != nil {
+				theRun.Violation("panic:"+opNames[op], fmt.Sprintf("%s(%v, %v) panicked: %v", opNames[op], x, y, e),
+					map[string]any{"op": opNames[op], "x": x.String(), "y": y.String(), "panic": fmt.Sprint(e)})
+			}
+			z, ok = IR{}, false
+		}
+	}()
+	return applyRaw(op, x, y)
+}
+
+func applyRaw(op int, x, y IR) (IR, bool) {
 	switch op {
 	case opAdd:
 		return x.TryAdd(y)
@@ -387,7 +404,14 @@ func smallUniverse(r *ev.Run, N int64, clip int64) (evals, nontrivial int64) {
 						}
 					}
 				}
-				// storage sharing with package state: scribble on the result, redo, compare.
+				// storage sharing with package state: two separately computed results must not
+				// share a *big.Int (that would be package-level storage; and scribbling on it
+				// below would corrupt the package for every other worker)
+				if zAgain, _ := apply(op, X, Y); shareAny(zAgain, z, IR{}) {
+					fail("result-shares-package-storage", "", "two calls returned the same *big.Int")
+					continue
+				}
+				// then: scribble on the result, redo, compare.
 				s1 := z.String()
 				if z[0] != nil {
 					z[0].SetInt64(0x5A5A5A5A)
@@ -872,6 +896,7 @@ func main() {
 		return
 	}
 	r := ev.Start("C06", "exploration")
+	theRun = r
 	r.SetBudget(6*time.Minute, 40*time.Minute)
 	selfCheckRef()
 	N, clip := int64(8), int64(20)
